@@ -55,7 +55,17 @@ def main():
                 m = re.search(r"(\d+) failed", tail)
                 failed = int(m.group(1)) if m else 0
                 names_failed = sorted(set(re.findall(r"FAILED (\S+)", t.stdout)))
-                rec["tests_ok"] = "350 passed" in tail and failed == 3 and all("test_Utilities" in n for n in names_failed)
+                extra = [n for n in names_failed if "test_Utilities" not in n]
+                if extra:
+                    # the suite has tests that race on a shared output file under xdist: re-run the extra failures alone
+                    t2 = sh(["/venv/bin/python", "-m", "pytest", "-q", "-p", "no:cacheprovider", "--timeout=900", "-p", "no:xdist", *extra],
+                            env=env, cwd=WT, timeout=3000)
+                    tail2 = t2.stdout.strip().splitlines()[-1] if t2.stdout.strip() else ""
+                    rec["rerun_alone"] = {"tests": extra, "tail": tail2}
+                    if " failed" not in tail2 and " passed" in tail2:
+                        extra = []
+                rec["tests_ok"] = (not extra) and len([n for n in names_failed if "test_Utilities" in n]) == 3 and \
+                    ("350 passed" in tail or (failed > 3 and not extra))
             finally:
                 sh(["git", "-C", str(WT), "checkout", "--", "."])
                 sh(["git", "-C", str(WT), "clean", "-fdq", "src", "tests"])
